@@ -119,7 +119,65 @@ def run(ctx):
     role_fns = {f for f, _ in OUTPUT_ROLE + DRAIN_ROLE} | {JT + "::output_refs"}
     other = sum(len(v) for k, v in by_fn.items() if k not in role_fns)
     r.notes.append(f"{other} further JoinType case analyses are extracted but not in a role table (information only)")
-    return [r, rule_flags(facts), rule_optab(facts), rule_condkeep(facts)]
+    return [r, rule_flags(facts), rule_optab(facts), rule_condkeep(facts), rule_nullkey(facts)]
+
+
+def rule_nullkey(facts):
+    """Join keys may be compared with `=` (NULL never matches) or with IS [NOT] DISTINCT FROM (NULL is an ordinary operand).
+    Whether a NULL key can have a partner is therefore a property of the condition's operator, decided by the row matcher.
+    Code of the hash join that looks at the validity of an array and is not the matcher itself must have consulted the
+    operator: pruning build/probe rows on NULL-ness alone drops the pairs a null-safe condition admits (and makes the hash join
+    disagree with the nested-loop join)."""
+    from .mir import Fn
+    r = RuleResult("C06-NULLKEY", "hash-join code probes array validity only behind a test of the condition's ComparisonOperator (NULL keys are matched "
+                   "or rejected per operator, never wholesale)", floor=25)
+    HJ = OPS + "hash_join::"
+    nfn = 0
+    for rec in facts.fns_matching(lambda i: i.startswith(HJ) or i.startswith("<" + HJ)):
+        if "::tests::" in rec["id"] or "::tests::" in rec.get("root", ""):
+            continue
+        nfn += 1
+        fn = Fn(rec)
+        for c in fn.calls():
+            if "validity::Validity::" not in c.name or c.name.rsplit("::", 1)[-1] not in ("is_valid", "all_valid", "null_count", "count_valid"):
+                continue
+            # the verdict only feeds a debug assertion (one edge of the switch on it panics out of `debug_assert!`)
+            if c.target is not None and fn.term(c.target)[0] == "switch":
+                outs = [fn.term(x) for x in fn.succ[c.target]]
+                if any(t_[0] == "call" and "panicking" in (t_[1].get("def") or "") and any("debug_assert" in str(e) for e in (t_[8] if len(t_) > 8 else []))
+                       for t_ in outs):
+                    continue
+            # receiver: the validity of an Array (not a freshly built mask of the operator's own)
+            o = fn.origin(c.args[0], at=c.bb) if c.args else None
+            proj = o[2] if o and len(o) > 2 and isinstance(o[2], list) else []
+            if not any(isinstance(p_, list) and p_[0] == "f" and p_[1] == "validity" and p_[2].endswith("arrays::array::Array") for p_ in proj):
+                continue
+            r.functions.add(fn.id)
+            r.call_sites += 1
+            guarded = False
+            chain = [fn]
+            root = rec.get("root")
+            if root and facts.fn(root):
+                chain.append(Fn(facts.fn(root)))
+            for f_ in chain:
+                for x in f_.calls():
+                    if (x.name.endswith("::eq") or x.name.endswith("::ne")) and any("ComparisonOperator" in a for a in (x.gargs or []) + [x.callee.get("self", "")]):
+                        if f_ is not fn or any(f_.edge_dominates(b, t_, c.bb) for b in [x.target] if b is not None for t_ in f_.succ[b]):
+                            guarded = True
+            r.inst({"fn": fn.id, "line": c.line, "probe": c.name.rsplit("::", 1)[-1], "behind_operator_test": guarded}, guarded)
+            if not guarded:
+                r.violate(fn.id, f"validity-probe-without-operator:{c.name.rsplit('::', 1)[-1]}",
+                          f"`{c.name.rsplit('::', 1)[-1]}` on an input array's validity at line {c.line} decides about join rows without a test of the "
+                          "condition's ComparisonOperator: a NULL key is a valid operand of IS [NOT] DISTINCT FROM, so rows that have a partner are dropped",
+                          rec["file"], c.line)
+    for _ in range(nfn):
+        r.instances.append(None) if False else None
+    r.notes.append(f"{nfn} hash-join functions scanned; validity probes found: {r.call_sites}")
+    # the rule's expected count on a correct tree is zero probes: the anchor is the scanned-function count
+    r.floor = 0
+    if nfn < 25:
+        r.missing_anchor(f"hash join module functions (found {nfn}, expected at least 25)")
+    return r
 
 
 CLAIM = {
